@@ -1423,10 +1423,68 @@ def _inline_new_helpers(tree, relpath):
                         h_._verif_owner = owner
                         h_._verif_nested = nested
                         helpers[('', n.name) if nested else (cls, n.name)] = h_
+                    elif not any(isinstance(x, (ast.Yield, ast.YieldFrom)) for x in _own_walk(h_)):
+                        # several exits that cannot be brought to one: still inlinable where the call is itself returned
+                        h_._verif_static = 'staticmethod' in decos
+                        h_._verif_classm = 'classmethod' in decos
+                        h_._verif_orig = n
+                        h_._verif_owner = owner
+                        h_._verif_nested = nested
+                        h_._verif_tail_only = True
+                        helpers[('', n.name) if nested else (cls, n.name)] = h_
     collect(tree, '')
     if not helpers:
         return
     counter = [0]
+    tail_ok = [False]
+
+    def tail_inline(st, cls):
+        """`return h(args)` / `return await h(args)` with h a helper of several exits: h's body stands in for the statement,
+        its returns become the caller's (a fall off its end returns None)"""
+        if not (isinstance(st, ast.Return) and st.value is not None):
+            return None
+        v = st.value
+        awaited = isinstance(v, ast.Await)
+        call = v.value if awaited else v
+        if not isinstance(call, ast.Call):
+            return None
+        tail_ok[0] = True
+        try:
+            got = helper_of(call, cls)
+        finally:
+            tail_ok[0] = False
+        if got is None:
+            return None
+        h, key = got
+        if not getattr(h, '_verif_tail_only', False) or isinstance(h, ast.AsyncFunctionDef) != awaited:
+            return None
+        b = bind(call, h, key)
+        if b is None:
+            return None
+        counter[0] += 1
+        sfx = f'__{h.name}{counter[0]}'
+        stored = stored_names(h)
+        locals_ = set(stored) | {p for p, _v in b}
+        locals_.discard('self')
+        ren = {n_: n_ + sfx for n_ in locals_}
+        sub, pre = {}, []
+        for p, v_ in b:
+            if _simple_arg(v_) and p not in stored:
+                sub[p] = v_
+                ren.pop(p, None)
+            else:
+                pre.append(ast.copy_location(ast.Assign(targets=[ast.Name(id=ren[p], ctx=ast.Store())], value=v_), st))
+        tr = _SubstMany(ren, sub)
+        body = [tr.visit(fast_copy(s_)) for s_ in h.body]
+        if not (body and isinstance(body[-1], (ast.Return, ast.Raise))):
+            body.append(ast.copy_location(ast.Return(value=ast.Constant(value=None)), st))
+        out = pre + body
+        for s_ in out:
+            for x in ast.walk(s_):
+                if not hasattr(x, 'lineno') and isinstance(x, (ast.stmt, ast.expr)):
+                    ast.copy_location(x, st)
+        h._verif_inlined = getattr(h, '_verif_inlined', 0) + 1
+        return out
 
     def helper_of(call, cls):
         f = call.func
@@ -1436,7 +1494,7 @@ def _inline_new_helpers(tree, relpath):
         elif isinstance(f, ast.Name):
             key = ('', f.id)
         h = helpers.get(key)
-        if h is None:
+        if h is None or (getattr(h, '_verif_tail_only', False) and not tail_ok[0]):
             return None
         if any(isinstance(a, ast.Starred) for a in call.args) or any(k.arg is None for k in call.keywords):
             return None
@@ -1689,7 +1747,9 @@ def _inline_new_helpers(tree, relpath):
             for st in body:
                 sub = None
                 if not isinstance(node, (ast.ClassDef, ast.Module)):
-                    sub = expand(st, cls, 0)
+                    sub = tail_inline(st, cls)
+                    if sub is None:
+                        sub = expand(st, cls, 0)
                 if sub is not None:
                     new += sub
                 else:
